@@ -28,7 +28,8 @@ from ..core import Check
 
 THEOREMS = {n: "Props.C13" for n in [
     "C13_seq_roundtrip", "C13_avg_roundtrip", "C13_avg_roundtrip_fields", "C13_l1d_data_roundtrip",
-    "C13_l1d_data_roundtrip_Qc", "C13_datasaver_roundtrip", "C13_balancing_roundtrip"]}
+    "C13_l1d_data_roundtrip_Qc", "C13_datasaver_roundtrip", "C13_balancing_roundtrip",
+    "C13_l1d_restored_losses", "C13_l1d_restored_example"]}
 
 SIG_F7 = "C13:F7 Learner2D unusable on numpy>=2.x/scipy>=1.15"
 SIG_CYCLE = "C13:BalancingLearner:pickle strategy='cycle' restarts at the first child (position in the cycle is not part of the pickled state)"
